@@ -778,8 +778,9 @@ class Classifier:
     # `[0x01, #'int {..}] ap`). Signature: a generic callee (in the source, or %iter / %list) is
     # handed a callback inside a bracketed argument (a function literal with an explicit
     # parameter, or `&name`), and the failure is gone when that callback is replaced by a
-    # context-typed lambda, whose parameter is whatever the variable is (`#{ $ }`, `#{ 1 }`, ..).
-    CALLBACK_REF_RE = re.compile(r"(?<=[\[,])\s*&[a-z][A-Za-z0-9_]*[?]?[!]?(?=\s*[,\]])")
+    # context-typed lambda, whose parameter is whatever the variable is (`#{ $ }`, `#{ 1 }`, ..),
+    # or the compiler rejects the program once the callback is eta-expanded (`#{ $ name }`).
+    CALLBACK_REF_RE = re.compile(r"(?<=[\[,])\s*&[a-z%][A-Za-z0-9_./%]*[?]?[!]?(?=\s*[,\]])")
 
     def sig_callback_param(self, src, mods, failure):
         s0 = strip_strings(src)
@@ -793,14 +794,25 @@ class Classifier:
                 spans.append((h, b1 + 1))
         for m in self.CALLBACK_REF_RE.finditer(src):
             spans.append((m.start(), m.end()))
-        variants = []
+        variants, eta = [], []
         for (a0, a1) in spans[:3]:
             for lam in ("#{ $ }", "#{ 1 }", "#{ Ok }", "#{ [] }"):
                 variants.append(src[:a0] + " " + lam + src[a1:])
+            # the ETA-EXPANSION of the callback (same behaviour): the lambda's parameter is what the
+            # variable is, and the call inside it checks that against the callback's own parameter
+            cb = src[a0:a1].strip()
+            if cb.startswith("&"):
+                eta.append(src[:a0] + " #{ $ " + cb[1:] + " }" + src[a1:])
+            else:
+                eta.append(src[:a0] + " #{ c01cb = " + cb + ", $ c01cb }" + src[a1:])
         if not variants:
             return False
-        recs = self.outcomes(variants, mods)
-        return any(r["status"] == "accepted" and not r["failure"] for r in recs)
+        recs = self.outcomes(variants + eta, mods)
+        if any(r["status"] == "accepted" and not r["failure"] for r in recs):
+            return True
+        # eta-expanded, the compiler rejects the call: it was accepted only because the callback's
+        # parameter went unchecked
+        return any(r["status"] == "compile-error" for r in recs[len(variants):])
 
     # ---- unify-recursive-tail (F67, the residue left open by e5e2c4b): see below. Precondition: a
     # generic function `#<..>` whose header mentions a recursive alias, or %list / %iter.
